@@ -653,6 +653,13 @@ def batch_order_case(case):
     return 9
 
 
+def bg_peek(bg):
+    """True if the side process has already reported a violation (the message stays in `bg` for the collector)."""
+    if len(bg) == 3:
+        bg.append(bg[1].recv())
+    return bg[3] is not None
+
+
 def _bg_long(conn, case):
     try:
         hbfs._guard(long_history, case)
@@ -674,17 +681,22 @@ def run(ctx):
         mp = multiprocessing.get_context('fork')
         recv, send = mp.Pipe(False)
         bg_case = {'leg': 'long_history', 'cycles': 2 ** 24 + 16}
-        bg = (mp.Process(target=_bg_long, args=(send, bg_case)), recv, bg_case)
+        bg = [mp.Process(target=_bg_long, args=(send, bg_case)), recv, bg_case]
         bg[0].start()
+        hbfs.ABORT = lambda: bg_peek(bg) if (len(bg) > 3 or bg[1].poll(0)) else False
     try:
         _run(ctx)
     finally:
+        hbfs.ABORT = None
         if bg is not None:
-            proc, recv, bg_case = bg
+            proc, recv, bg_case = bg[:3]
             if ctx.violations:
                 proc.terminate()
             else:
-                res = recv.recv() if recv.poll(600) else ('the longest history did not finish within 600 s', None, None)
+                if len(bg) > 3:
+                    res = bg[3]
+                else:
+                    res = recv.recv() if recv.poll(600) else ('the longest history did not finish within 600 s', None, None)
                 ctx.traces += 1
                 ctx.transitions += 2 * bg_case['cycles']
                 if res is not None:
